@@ -496,6 +496,16 @@ fn one_request(_step: usize) -> (String, bool) {
         2 => Some(libc::MAP_SHARED | libc::MAP_NORESERVE),
         _ => Some(libc::MAP_SHARED),
     };
+    // the all-zero flag word is a request of its own (the kernel refuses it), not "unset"
+    let mmflags = if c.a(12) == 0 { Some(0) } else { mmflags };
+    // protection: left at its default (read-write) or set explicitly, PROT_NONE (= 0) included
+    let xprot: Option<i32> = match c.a(6) {
+        0 => Some(libc::PROT_NONE),
+        1 => Some(libc::PROT_READ),
+        2 => Some(libc::PROT_READ | libc::PROT_WRITE),
+        _ => None,
+    };
+    let eff_xprot = xprot.unwrap_or(libc::PROT_READ | libc::PROT_WRITE);
     let base = 0x1000 * (1 + c.a(64) as u64);
     let inject = c.a(5);
     let bits = MmapXenFlags::from_bits(xflags);
@@ -519,10 +529,13 @@ fn one_request(_step: usize) -> (String, bool) {
         FileOffset::new(dup, offset)
     });
     let mut range = MmapRange::new(size, fo, GuestAddress(base), xflags, 3);
+    if let Some(p) = xprot {
+        range.set_prot(p);
+    }
     if let Some(f) = mmflags {
         range.set_flags(if is_unix_kind && !with_file { f & !libc::MAP_SHARED | libc::MAP_PRIVATE | libc::MAP_ANONYMOUS } else { f });
     }
-    let desc = format!("from_range(size {}, xen flags {:#x}, mmap flags {:?}, {}, guest base {:#x}){}", size, xflags, mmflags, match &file { Some((_, len, seek)) => format!("file of {} bytes{} at offset {:#x}", len, if *seek { "" } else { " (unseekable)" }, offset), None => "no file".into() }, base, ["", " [map ioctl made to fail]", " [mmap made to fail]", "", ""][inject as usize]);
+    let desc = format!("from_range(size {}, xen flags {:#x}, mmap flags {:?}, prot {:?}, {}, guest base {:#x}){}", size, xflags, mmflags, xprot, match &file { Some((_, len, seek)) => format!("file of {} bytes{} at offset {:#x}", len, if *seek { "" } else { " (unseekable)" }, offset), None => "no file".into() }, base, ["", " [map ioctl made to fail]", " [mmap made to fail]", "", ""][inject as usize]);
     match inject {
         1 => cx().sys.xen.as_mut().unwrap().fail_map_at = Some(cx().sys.xen.as_ref().unwrap().map_calls),
         2 => cx().sys.fail_mmap_at = Some((cx().sys.mmap_calls, libc::ENOMEM)),
@@ -574,10 +587,10 @@ fn one_request(_step: usize) -> (String, bool) {
                 verdict("from_range", "a region", want, &desc);
             }
             let want_flags = mmflags.map(|f| if is_unix_kind && !with_file { f & !libc::MAP_SHARED | libc::MAP_PRIVATE | libc::MAP_ANONYMOUS } else { f }).unwrap_or(libc::MAP_NORESERVE | libc::MAP_SHARED);
-            if reg.size() != size || reg.prot() != libc::PROT_READ | libc::PROT_WRITE || reg.flags() != want_flags || reg.xen_mmap_flags() != xflags || reg.xen_mmap_data() != 3 || reg.file_offset().map(|f| f.start()) != file.as_ref().map(|_| offset) {
+            if reg.size() != size || reg.prot() != eff_xprot || reg.flags() != want_flags || reg.xen_mmap_flags() != xflags || reg.xen_mmap_data() != 3 || reg.file_offset().map(|f| f.start()) != file.as_ref().map(|_| offset) {
                 cx().violate("C15", "C15/attributes", "attributes of the built region".into(), format!("{}: region reports size {} prot {:#x} flags {:#x} xen flags {:#x} data {}", desc, reg.size(), reg.prot(), reg.flags(), reg.xen_mmap_flags(), reg.xen_mmap_data()));
             }
-            if let (true, Some((f, len, true))) = (is_unix_kind && want_flags & libc::MAP_SHARED != 0, &file) {
+            if let (true, Some((f, len, true))) = (is_unix_kind && want_flags & libc::MAP_SHARED != 0 && eff_xprot == libc::PROT_READ | libc::PROT_WRITE, &file) {
                 if *len >= offset + size as u64 && offset + (size as u64) < (1 << 16) && size > 0 {
                     let rr = &reg;
                     check_coherence(reg.as_ptr(), size, f, offset, |d, at| rr.as_volatile_slice().write(d, at).is_ok(), &desc);
@@ -586,7 +599,7 @@ fn one_request(_step: usize) -> (String, bool) {
             match catch(|| GuestRegionMmap::new(reg, GuestAddress(base))) {
                 OpOutcome::Ok(Ok(g)) => {
                     // a device-backed region shows the guest's memory at its base
-                    if !is_unix_kind && size > 0 && xflags & 8 == 0 {
+                    if !is_unix_kind && size > 0 && xflags & 8 == 0 && eff_xprot & libc::PROT_READ != 0 {
                         let probe = [0x3Cu8, 0x3D, 0x3E];
                         let k = probe.len().min(size);
                         cx().sys.xen.as_ref().unwrap().pwrite(base + (size - k) as u64, &probe[..k]);
